@@ -137,6 +137,9 @@ func ZZVerifC04Copy() {
 		destRoot.MkdirAll([]string{"d"})
 	}
 	raw := reftree.NewFS(destRoot)
+	// the destination makes streamed bytes durable on every Write, or only
+	// when Close succeeds (a buffering back end)
+	*raw.Deferred = nd.Bool("dest-commits-at-close")
 	var dest filesystem.Filespace = raw
 	encrypted := nd.Choose("dest-encrypted", 2) == 1
 	if encrypted {
